@@ -110,6 +110,22 @@ def scen_linalg(which, method, seed):
     return call, keep
 
 
+def scen_singular(which, seed):
+    """inputs that send the direct shifted solve through its singular-matrix fallback (a shift exactly on the spectrum)"""
+    d = torch.tensor([1.0, 2.0, 3.0, 4.0, 5.0], dtype=DT).requires_grad_()
+    B = torch.ones(5, 2, dtype=DT).requires_grad_()
+    keep = (d, B)
+
+    def call():
+        Am = torch.diag(d)
+        A = LinearOperator.m(Am, is_hermitian=True)
+        if which == "symeig-backward":
+            ev, evec = xitorch.linalg.symeig(A, neig=2, method="custom_exacteig")
+            return torch.cat([ev, (evec ** 2).reshape(-1)]), [d]
+        return xitorch.linalg.solve(A, B, torch.tensor([2.0, 7.0], dtype=DT)), [d, B]
+    return call, keep
+
+
 def scen_interp(which, method, seed):
     xs = torch.linspace(0.0, 1.0, 7, dtype=DT) ** 1.2
     ys = torch.sin(3 * xs).requires_grad_()
@@ -133,6 +149,8 @@ def scenarios(thorough, seed):
     for m in ("exacteig", "custom_exacteig", "davidson"):
         out.append(("symeig/%s/dense" % m, lambda m=m: scen_linalg("symeig", m, seed)))
     out.append(("svd/exacteig/dense", lambda: scen_linalg("svd", "exacteig", seed)))
+    out.append(("symeig/custom_exacteig/exactly-representable-spectrum", lambda: scen_singular("symeig-backward", seed)))
+    out.append(("solve/exactsolve/shift-on-spectrum", lambda: scen_singular("solve", seed)))
     for m in ("linear",):
         out.append(("interp1d/%s" % m, lambda m=m: scen_interp("interp1d", m, seed)))
     for m in ("trapz", "simpson"):
